@@ -88,7 +88,7 @@ fn options() -> Vec<Opt> {
         opt!("max-flows", "strategy", "64", ("10", "10"), ("20", "20"), |c| c.max_flows.to_string()),
         flag!("tui-preserve-screen", "tui", |c| c.tui_preserve_screen.to_string()),
         opt!("tui-refresh-rate", "tui", "100ms", ("\"200ms\"", "200ms"), ("300ms", "300ms"), |c| format!("{:?}", c.tui_refresh_rate)),
-        opt!("tui-privacy-max-ttl", "tui", "None", ("3", "Some(3)"), ("4", "Some(4)"), |c| format!("{:?}", c.tui_privacy_max_ttl)),
+        opt!("tui-privacy-max-ttl", "tui", "None", ("1", "Some(1)"), ("2", "Some(2)"), |c| format!("{:?}", c.tui_privacy_max_ttl)),
         opt!("tui-address-mode", "tui", "Host", ("\"ip\"", "Ip"), ("both", "Both"), |c| format!("{:?}", c.tui_address_mode)),
         opt!("tui-as-mode", "tui", "Asn", ("\"prefix\"", "Prefix"), ("name", "Name"), |c| format!("{:?}", c.tui_as_mode)),
         opt!("tui-custom-columns", "tui", "holsravbwdt", ("\"hol\"", "hol"), ("hols", "hols"), |c| c.tui_custom_columns.0.iter().map(|x| format!("{x}")).collect::<String>()),
